@@ -54,7 +54,7 @@ Cand == (Obs \ {x, y}) \ Desc(E, x)                \* candidate adjustment varia
 DoSets == {{x}} \cup {{x, w} : w \in N \ {x, y}}
 FirstStates(S) == [v \in S |-> b.states[v][Len(b.states[v])]]     \* one clamp value per do-variable (last state)
 Case ==
-  [inst |-> b.id, latents |-> L, x |-> x, y |-> y,
+  [inst |-> b.id, latents |-> L, x |-> x, y |-> y, descx |-> Desc(E, x),
    bd |-> {[z |-> Z, ok |-> BackDoorOK(x, y, Z)] : Z \in SUBSET Cand},
    bd_all |-> {Z \in SUBSET (Obs \ {x, y}) : BackDoorOK(x, y, Z)},
    fd_all |-> {Z \in SUBSET (Obs \ {x, y}) : FrontDoorOK(x, y, Z)},
